@@ -70,8 +70,6 @@ RunFrom(doc, as, i, ill, user) ==
                   ELSE IF a.n = "RemoveTable" THEN user \ {a.t} ELSE user)
 Run(doc, as, user) == RunFrom(doc, as, 1, {}, user)
 
-SchemaOf(doc, ts) == [t \in ts |-> doc[t].base]
-
 \* metadata tables whose set of columns / base types differs from the current schema
 SchemaDiff(doc, meta, cur) ==
   {t \in meta \cup DOMAIN cur : t \notin meta \/ t \notin DOMAIN cur \/ doc[t].base # cur[t]}
@@ -90,19 +88,20 @@ IsVersionUpdate(a, curv) ==
   /\ DOMAIN a.c = {"schemaVersion"}
   /\ a.c["schemaVersion"] = <<curv>>
 
-\* ordinary user tables whose cells were touched: table gone or renamed, a row added or removed,
-\* a column gone, a cell changed.  (Added columns and changed column types touch no existing cell.)
+\* <<table, column>> of the ordinary user tables whose cells were touched: a cell changed or its column
+\* is gone; <<table, "*">> if the table is gone or renamed or a row was added or removed.
+\* (Added columns and changed column types touch no existing cell.)
 TouchedUser(d0, d1, ordinary) ==
-  {t \in ordinary :
-     \/ t \notin DOMAIN d1
-     \/ d1[t].rows # d0[t].rows
-     \/ \E cid \in DOMAIN d0[t].cols :
-          \/ cid \notin DOMAIN d1[t].cols
-          \/ \E x \in d0[t].rows : d1[t].cols[cid][x] # d0[t].cols[cid][x]}
+  {<<t, "*">> : t \in {u \in ordinary : u \notin DOMAIN d1 \/ d1[u].rows # d0[u].rows}}
+  \cup UNION {{<<t, cid>> : cid \in {k \in DOMAIN d0[t].cols :
+                                        \/ k \notin DOMAIN d1[t].cols
+                                        \/ \E x \in d0[t].rows : d1[t].cols[k][x] # d0[t].cols[k][x]}}
+              : t \in {u \in ordinary : u \in DOMAIN d1 /\ d1[u].rows = d0[u].rows}}
 
-\* Failed clauses of one case, with the tables / positions concerned
+\* Failed clauses of one case; d = what they are about: metadata tables whose schema differs, touched
+\* user cells, positions of the ill-formed actions
 Verdict(c, env) ==
-  IF c.exc # "" THEN [c |-> {"C25.total"}, d |-> {c.exc, c.where}]
+  IF c.exc # "" THEN [c |-> {"C25.total"}, d |-> [schema |-> {}, user |-> {}, ill |-> {}]]
   ELSE
   LET d0   == DocOf(c, env.schemas[ToString(c.v)])
       user == SeqRange(c.user)
@@ -117,7 +116,7 @@ Verdict(c, env) ==
             \cup (IF cur1 THEN {} ELSE {"C25.current"})
             \cup (IF tu = {} THEN {} ELSE {"C25.user"})
             \cup (IF res.ill = {} THEN {} ELSE {"C25.applicable"}),
-      d |-> sd \cup tu \cup {ToString(i) : i \in res.ill}]
+      d |-> [schema |-> sd, user |-> tu, ill |-> res.ill]]
 
 Clauses(c, env) == Verdict(c, env).c
 Ok(c, env) == Clauses(c, env) = {}
